@@ -310,6 +310,7 @@ func (p Profile) GenScript(t *rapid.T) Script {
 	}
 	sc.Cfg.FrameMs = pick(t, "frame_ms", []int{1, 15, 15, 50, 100})
 	sc.Cfg.ReceiptCap = pick(t, "receipt_cap", []int{1, 2, 128})
+	sc.Cfg.ReqBase = pick(t, "req_base", []uint32{0, 0, 0, 65500, 2147483500, 4294900000})
 	if len(p.IdleMs) > 0 {
 		sc.Cfg.IdleMs = pick(t, "idle_ms", p.IdleMs)
 	}
